@@ -17,6 +17,7 @@ GUARD = 'XDOCTEST_VERIF_TRACE'
 _state = threading.local()
 _installed = [False]
 _out = [None]
+_out_key = [None]
 _seq = [0]
 _runctr = [0]
 
@@ -29,10 +30,11 @@ def _stack():
 
 def _emit(ev, **fields):
     st = _stack()
-    if not st:
+    if not st or not os.environ.get(GUARD):       # recording is off unless the guard names a file (also after an in-process install)
         return
-    if _out[0] is None:
-        _out[0] = open('%s.%d' % (os.environ[GUARD], os.getpid()), 'a')
+    if _out[0] is None or _out_key[0] != (os.environ[GUARD], os.getpid()):
+        _out_key[0] = (os.environ[GUARD], os.getpid())
+        _out[0] = open('%s.%d' % _out_key[0], 'a')
     _seq[0] += 1
     rec = {'e': ev, 'run': st[-1]['id'], 'seq': _seq[0]}
     rec.update(fields)
@@ -223,6 +225,7 @@ def install():
 # Session events (specs/SessionTrace.tla): one native-runner session = one call of runner.doctest_module.
 # Written to `<file>-sess.<pid>`; sessions nest (a doctest may itself call doctest_module), every event carries its session id.
 _sess_out = [None]
+_sess_key = [None]
 _sess_seq = [0]
 _sess_ctr = [0]
 _last_main_session = [None]
@@ -235,8 +238,11 @@ def _sessions():
 
 
 def _semit(sess, ev, **fields):
-    if _sess_out[0] is None:
-        _sess_out[0] = open('%s-sess.%d' % (os.environ[GUARD], os.getpid()), 'a')
+    if not os.environ.get(GUARD):
+        return
+    if _sess_out[0] is None or _sess_key[0] != (os.environ[GUARD], os.getpid()):
+        _sess_key[0] = (os.environ[GUARD], os.getpid())
+        _sess_out[0] = open('%s-sess.%d' % _sess_key[0], 'a')
     _sess_seq[0] += 1
     rec = {'e': ev, 'sess': sess['id'], 'seq': _sess_seq[0]}
     rec.update(fields)
